@@ -2,7 +2,7 @@
   C19 — Plücker lines: incidence, projection and rigid transformation are consistent.
   Theorems about the traced class methods of `Plucker` / `Plane`.  A line is the pair (v, w) stored as the
   6-vector L = (v, w) with v = w × p for every point p of the line.
-  Explored only (smv/props/c19.py): predicates with absolute tolerances (contains, ==, isparallel), distance.
+  Explored only (smv/props/c19.py): predicates with absolute tolerances (contains, ==, isparallel), distance, the normalised reciprocal product.
 -/
 import SmVerif.Gen.Plucker
 import SmVerif.Spec.Lie
@@ -166,6 +166,50 @@ theorem intersect_plane_spec (L : Vec 6 R) (hc : dot (mom L) (dir L) = 0) (pl : 
     · linear_combination (-pl 0) * hc + (L 0) * hD
     · linear_combination (-pl 1) * hc + (L 1) * hD
     · linear_combination (-pl 2) * hc + (L 2) * hD
+
+/-- reciprocal (raw) product of two lines: zero exactly when they are coplanar (meet or are parallel) -/
+def recip (L M : Vec 6 R) : R := dot (mom L) (dir M) + dot (mom M) (dir L)
+
+/-- the common perpendicular of two non-parallel lines is a line (Plücker constraint), is orthogonal to both and meets both -/
+theorem commonperp_spec (hs : P.Sqrt) (L M C : Vec 6 R) (hcL : dot (mom L) (dir L) = 0) (hcM : dot (mom M) (dir M) = 0)
+    (h : Gen.Plucker_commonperp P L M = .ok C) :
+    dot (mom C) (dir C) = 0 ∧ dot (dir C) (dir L) = 0 ∧ dot (dir C) (dir M) = 0 ∧ recip C L = 0 ∧ recip C M = 0 ∧
+    dir C = cross3 (dir L) (dir M) := by
+  unfold Gen.Plucker_commonperp at h; simp only [] at h
+  simp only [dot, mom, dir, Fin.sum_univ_three, v3_0, v3_1, v3_2] at hcL hcM
+  set x1 := L 3 * M 4 - L 4 * M 3 with hx1
+  set x2 := L 5 * M 3 - L 3 * M 5 with hx2
+  set x3 := L 4 * M 5 - L 5 * M 4 with hx3
+  have hd0 : 0 ≤ x3 * x3 + x2 * x2 + x1 * x1 := add_nonneg (add_nonneg (mul_self_nonneg _) (mul_self_nonneg _)) (mul_self_nonneg _)
+  have hss := hs.mul_self _ hd0
+  split_ifs at h with hsmall
+  have hd' : x3 * x3 + x2 * x2 + x1 * x1 ≠ 0 := by
+    intro e; rw [e] at hss hsmall
+    have : P.sqrt 0 = 0 := mul_self_eq_zero.mp hss
+    rw [this] at hsmall; exact hsmall (by positivity)
+  generalize hd : x3 * x3 + x2 * x2 + x1 * x1 = d at *
+  set x6 := (L 0 * M 3 + L 1 * M 4 + L 2 * M 5 + (M 0 * L 3 + M 1 * L 4 + M 2 * L 5)) * (L 3 * M 3 + L 4 * M 4 + L 5 * M 5) with hx6
+  have hk0 : x6 * x3 / d * d = x6 * x3 := by field_simp
+  have hk1 : x6 * x2 / d * d = x6 * x2 := by field_simp
+  have hk2 : x6 * x1 / d * d = x6 * x1 := by field_simp
+  generalize x6 * x3 / d = k0 at *
+  generalize x6 * x2 / d = k1 at *
+  generalize x6 * x1 / d = k2 at *
+  cases h
+  simp only [recip, dot, mom, dir, Fin.sum_univ_three, v3_0, v3_1, v3_2, v6_0, v6_1, v6_2, v6_3, v6_4, v6_5]
+  refine ⟨?_, ?_, ?_, ?_, ?_, ?_⟩
+  · apply mul_right_cancel₀ hd'
+    simp only [hx1, hx2, hx3, hx6] at *
+    linear_combination x3 * hk0 + x2 * hk1 + x1 * hk2 + x6 * hd + d * ((M 3 ^ 2 + M 4 ^ 2 + M 5 ^ 2) * hcL + (L 3 ^ 2 + L 4 ^ 2 + L 5 ^ 2) * hcM)
+  · simp only [hx1, hx2, hx3]; ring
+  · simp only [hx1, hx2, hx3]; ring
+  · apply mul_right_cancel₀ hd'
+    simp only [hx1, hx2, hx3, hx6] at *
+    linear_combination (L 5) * hk2 + (L 4) * hk1 + (L 3) * hk0
+  · apply mul_right_cancel₀ hd'
+    simp only [hx1, hx2, hx3, hx6] at *
+    linear_combination (M 5) * hk2 + (M 4) * hk1 + (M 3) * hk0
+  · apply Vec.ext3 <;> simp [cross3, hx1, hx2, hx3]
 
 /-- transforming a line by a rigid motion gives the line through the transformed points, with rotated direction -/
 theorem SE3_mul_line (M : Mat 3 3 R) (t : Vec 3 R) (hM : IsSO3 M) (L L' : Vec 6 R)
